@@ -3,15 +3,15 @@ M-RpcGate: the JSON-RPC request path of `rpc/json.go` + `rpc/server.go` from the
 the call of a service method, with the api-key gate of `readRequest` (server.go:393) in the middle.
 
   message text ──(encoding/json)──▶ `Elem` (abstract JSON members)            [abstraction made by the harness]
-  `decode`        json.go:41-47  struct jsonRequest filled by encoding/json   (key: case-insensitive member
+  `decode`        json.go:40-46  struct jsonRequest filled by encoding/json   (key: case-insensitive member
                                  match, a later string overwrites, `null` is a no-op, any other type fails the
                                  whole message)
-  `parseRequest`  json.go:165    single request  → `RpcReq` or a message-level error
-  `parseBatch`    json.go:213    batch           → `List RpcReq` or a message-level error
-  `resolve`       server.go:371  `readRequest` loop body: parse-error element, **key gate**, unsubscribe,
+  `parseRequest`  json.go:173    single request  → `RpcReq` or a message-level error
+  `parseBatch`    json.go:221    batch           → `List RpcReq` or a message-level error
+  `resolve`       server.go:380  `readRequest` loop body: parse-error element, **key gate**, unsubscribe,
                                  service lookup, subscription lookup, callback lookup
-  `handle`        server.go:247  executes one resolved request (unsubscribe / subscribe / call)
-  `serve`         server.go:139  `serveRequest` + `exec` / `execBatch` for one message
+  `handle`        server.go:256  executes one resolved request (unsubscribe / subscribe / call)
+  `serve`         server.go:126  `serveRequest` + `exec` / `execBatch` for one message
 
 Strings are byte lists (`List Nat`); the service registry (which namespaces/methods exist, their arity,
 whether they are subscriptions) is a parameter `Cfg.services`, so every theorem holds for any registry.
@@ -22,11 +22,11 @@ namespace IdenaModel.RpcGate
 
 abbrev Str := List Nat
 
-/-- `"_subscribe"` (json.go:34) -/
+/-- `"_subscribe"` (json.go:35) -/
 def sufSubscribe : Str := [95, 115, 117, 98, 115, 99, 114, 105, 98, 101]
-/-- `"_unsubscribe"` (json.go:35) -/
+/-- `"_unsubscribe"` (json.go:36) -/
 def sufUnsubscribe : Str := [95, 117, 110, 115, 117, 98, 115, 99, 114, 105, 98, 101]
-/-- `'_'`, serviceMethodSeparator (json.go:33) -/
+/-- `'_'`, serviceMethodSeparator (json.go:34) -/
 def sepByte : Nat := 95
 
 /-- strings.HasSuffix -/
@@ -67,7 +67,7 @@ inductive Params where
   | arr (as : List Arg)
   deriving DecidableEq, Repr
 
-/-- classification of the `id` member by `checkReqId` (json.go:146) -/
+/-- classification of the `id` member by `checkReqId` (json.go:156) -/
 inductive IdV where
   | absent               -- "missing request id"
   | ok                   -- number, string or null
@@ -103,7 +103,7 @@ def foldKey : Str → List KeyVal → Option Str
 /-- the key an element carries as far as the server is concerned (`none`: a key member of a non-string type) -/
 def effKey (ks : List KeyVal) : Option Str := foldKey [] ks
 
-/-- `jsonRequest` (json.go:41) after `json.Unmarshal` -/
+/-- `jsonRequest` (json.go:40) after `json.Unmarshal` -/
 structure JsonReq where
   key : Str
   method : Str
@@ -122,7 +122,7 @@ def decode (e : Elem) : Option JsonReq :=
     | none => none
     | some k => some { key := k, method := e.method.getD [], id := e.id, payload := e.params }
 
-/-- `rpcRequest` (types.go:80) -/
+/-- `rpcRequest` (types.go:81) -/
 structure RpcReq where
   key : Str
   service : Str := []
@@ -134,7 +134,7 @@ structure RpcReq where
   err : Option Int := none
   deriving DecidableEq, Repr
 
-/-- `json.Unmarshal(in.Payload, &subscribeMethod)` with `subscribeMethod [1]string` (json.go:183, :233):
+/-- `json.Unmarshal(in.Payload, &subscribeMethod)` with `subscribeMethod [1]string` (json.go:188, :240):
 `null` and a short array leave `""`, surplus elements are skipped unchecked. -/
 def firstString : Params → Option Str
   | .absent => none                      -- not reached: callers test `len(Payload) > 0` first
@@ -152,37 +152,37 @@ def codeInvalidMessage : Int := -32700
 def codeCallback : Int := -32000
 def codeInvalidKey : Int := -32800
 
-/-- everything after Unmarshal and `checkReqId` that is common to json.go:176-207 (single) and
-json.go:228-259 (batch element); `single` selects the treatment of a method name that does not split in two:
-message-level error (json.go:198) vs element-level `err` (json.go:258). -/
+/-- everything after Unmarshal and `checkReqId` that is common to json.go:183-215 (single) and
+json.go:236-268 (batch element); `single` selects the treatment of a method name that does not split in two:
+message-level error (json.go:208) vs element-level `err` (json.go:267). -/
 def classify (single : Bool) (j : JsonReq) : Except Int RpcReq :=
-  if hasSuffix j.method sufSubscribe then                                   -- json.go:177 / :229
-    if j.payload = .absent then .error codeInvalidRequest                   -- json.go:192 / :243
+  if hasSuffix j.method sufSubscribe then                                   -- json.go:184 / :236
+    if j.payload = .absent then .error codeInvalidRequest                   -- json.go:198 / :251
     else match firstString j.payload with
-      | none => .error codeInvalidRequest                                   -- json.go:185 / :235
+      | none => .error codeInvalidRequest                                   -- json.go:191 / :243
       | some m => .ok { key := j.key, isPubSub := true, service := trimSuffix j.method sufSubscribe,
                         method := m, params := j.payload }
-  else if hasSuffix j.method sufUnsubscribe then                            -- json.go:195 / :246
+  else if hasSuffix j.method sufUnsubscribe then                            -- json.go:201 / :254
     .ok { key := j.key, isPubSub := true, method := j.method, params := j.payload }
   else match split sepByte j.method with
     | [svc, m] => .ok { key := j.key, service := svc, method := m, params := j.payload }
     | _ =>
-      if single then .error codeMethodNotFound                              -- json.go:198
-      else .ok { key := j.key, params := j.payload, err := some codeMethodNotFound }  -- json.go:258
+      if single then .error codeMethodNotFound                              -- json.go:208
+      else .ok { key := j.key, params := j.payload, err := some codeMethodNotFound }  -- json.go:267
 
-/-- `parseRequest` (json.go:165) -/
+/-- `parseRequest` (json.go:173) -/
 def parseRequest (e : Elem) : Except Int RpcReq :=
   match decode e with
-  | none => .error codeInvalidMessage                                       -- json.go:168
+  | none => .error codeInvalidMessage                                       -- json.go:176
   | some j =>
-    if j.id ≠ .ok then .error codeInvalidMessage                            -- json.go:171
+    if j.id ≠ .ok then .error codeInvalidMessage                            -- json.go:180
     else classify true j
 
-/-- the loop of `parseBatchRequest` (json.go:220-260): the first failing element fails the message -/
+/-- the loop of `parseBatchRequest` (json.go:228-269): the first failing element fails the message -/
 def parseBatchLoop : List JsonReq → Except Int (List RpcReq)
   | [] => .ok []
   | j :: t =>
-    if j.id ≠ .ok then .error codeInvalidMessage                            -- json.go:221
+    if j.id ≠ .ok then .error codeInvalidMessage                            -- json.go:230
     else match classify false j with
       | .error c => .error c
       | .ok r => match parseBatchLoop t with
@@ -196,10 +196,10 @@ def decodeAll : List Elem → Option (List JsonReq)
     | some j, some js => some (j :: js)
     | _, _ => none
 
-/-- `parseBatchRequest` (json.go:213) -/
+/-- `parseBatchRequest` (json.go:221) -/
 def parseBatch (es : List Elem) : Except Int (List RpcReq) :=
   match decodeAll es with
-  | none => .error codeInvalidMessage                                       -- json.go:215
+  | none => .error codeInvalidMessage                                       -- json.go:224
   | some js => parseBatchLoop js
 
 /-! ### registry and server configuration -/
@@ -222,7 +222,7 @@ structure Service where
 structure Cfg where
   apiKey : Str
   services : List Service
-  /-- the codec was served with `OptionSubscriptions` (WebSocket, IPC; not HTTP): server.go:136 -/
+  /-- the codec was served with `OptionSubscriptions` (WebSocket, IPC; not HTTP): server.go:148 -/
   notifier : Bool
   deriving Repr
 
@@ -234,7 +234,7 @@ def findCb : List (Str × Callback) → Str → Option Callback
   | [], _ => none
   | (n, c) :: t, m => if n = m then some c else findCb t m
 
-/-- `parsePositionalArguments` (json.go:276) for `n` parameters of type `string`:
+/-- `parsePositionalArguments` (json.go:287) for `n` parameters of type `string`:
 exactly `n` elements, each a string or `null` (decoded as `""`); `none` = invalidParamsError -/
 def parseArgs (n : Nat) : Params → Option (List Str)
   | .arr as =>
@@ -245,7 +245,7 @@ def parseArgs (n : Nat) : Params → Option (List Str)
       | _, _ => none) (some [])
   | _ => none
 
-/-- what a `serverRequest` (types.go:56) can be after `readRequest` -/
+/-- what a `serverRequest` (types.go:57) can be after `readRequest` -/
 inductive SrvReq where
   | err (code : Int)
   | unsub (args : List Str)
@@ -276,7 +276,7 @@ def resolve (cfg : Cfg) (r : RpcReq) : SrvReq :=
             | none => .err codeInvalidParams
           else .sub svc.name r.method cb []
       else match findCb svc.callbacks r.method with
-        | none => .err codeMethodNotFound                                   -- server.go:445
+        | none => .err codeMethodNotFound                                   -- server.go:444
         | some cb =>
           if r.params ≠ .absent ∧ cb.nargs > 0 then                         -- server.go:434
             match parseArgs cb.nargs r.params with
@@ -328,7 +328,7 @@ def Outcome.isError (o : Outcome) : Bool := o.code.isSome
 
 /-- connection state: which subscriptions (numbered in creation order) are active on this connection,
 which were created by the message being executed (activated after the response is written,
-server.go:330 / :360), and the number of the next subscription -/
+server.go:340 / :367), and the number of the next subscription -/
 structure St where
   active : List Nat := []
   pending : List Nat := []
@@ -345,32 +345,32 @@ def subRef : Str → Option Nat
   | 64 :: d :: t => digitsVal (d :: t) 0
   | _ => none
 
-/-- `handle` (server.go:247) on a resolved request -/
+/-- `handle` (server.go:256) on a resolved request -/
 def handle (cfg : Cfg) (st : St) : SrvReq → St × Outcome
-  | .err c => (st, .err c)                                                  -- server.go:248
-  | .unsub args =>                                                          -- server.go:252
+  | .err c => (st, .err c)                                                  -- server.go:257
+  | .unsub args =>                                                          -- server.go:261
     match args with
     | a :: _ =>
-      if ¬ cfg.notifier then (st, .err codeCallback)                        -- server.go:255 (http)
+      if ¬ cfg.notifier then (st, .err codeCallback)                        -- server.go:264 (http)
       else match subRef a with
         | some n =>
           if n ∈ st.active then ({ st with active := st.active.erase n }, .unsubscribed n)
-          else (st, .err codeCallback)                                      -- server.go:260 not found
+          else (st, .err codeCallback)                                      -- server.go:269 not found
         | none => (st, .err codeCallback)
-    | [] => (st, .err codeInvalidParams)                                    -- server.go:266
-  | .sub svc m _ args =>                                                    -- server.go:269
+    | [] => (st, .err codeInvalidParams)                                    -- server.go:275
+  | .sub svc m _ args =>                                                    -- server.go:278
     if cfg.notifier then
       ({ st with pending := st.pending ++ [st.next], next := st.next + 1 },
         .subscribed ⟨svc, m, args⟩ st.next)
     else (st, .subFailed ⟨svc, m, args⟩)
   | .call svc m cb args =>
-    if args.length ≠ cb.nargs then (st, .err codeInvalidParams)             -- server.go:285
-    else (st, .served ⟨svc, m, args⟩ cb.logged cb.retErr)                   -- server.go:301
+    if args.length ≠ cb.nargs then (st, .err codeInvalidParams)             -- server.go:294
+    else (st, .served ⟨svc, m, args⟩ cb.logged cb.retErr)                   -- server.go:310
 
 /-- the callbacks run after the response is written: pending subscriptions become active -/
 def activate (st : St) : St := { st with active := st.active ++ st.pending, pending := [] }
 
-/-- `execBatch` loop (server.go:343): resolved requests handled in order -/
+/-- `execBatch` loop (server.go:350): resolved requests handled in order -/
 def handleAll (cfg : Cfg) : St → List SrvReq → St × List Outcome
   | st, [] => (st, [])
   | st, q :: t =>
@@ -379,7 +379,7 @@ def handleAll (cfg : Cfg) : St → List SrvReq → St × List Outcome
     (rest.1, r.2 :: rest.2)
 
 inductive Msg where
-  | garbage                       -- not a JSON value: `c.decode` fails (json.go:134)
+  | garbage                       -- not a JSON value: `c.decode` fails (json.go:145)
   | single (e : Elem)
   | batch (es : List Elem)
   deriving DecidableEq, Repr
@@ -391,9 +391,9 @@ inductive Reply where
   | many (os : List Outcome)
   deriving DecidableEq, Repr
 
-/-- `readRequest` + `exec`/`execBatch` for one incoming message (server.go:151-201) -/
+/-- `readRequest` + `exec`/`execBatch` for one incoming message (server.go:160-208) -/
 def serve (cfg : Cfg) (st : St) : Msg → St × Reply
-  | .garbage => (st, .msgErr codeInvalidRequest)                            -- json.go:135
+  | .garbage => (st, .msgErr codeInvalidRequest)                            -- json.go:146
   | .single e =>
     match parseRequest e with
     | .error c => (st, .msgErr c)
